@@ -1,18 +1,11 @@
 #!/bin/bash
-# Runs the repository's pinned baseline with the guard OFF and compares with BASELINE.json's stable_pass list.
+# Runs the repository's pinned baseline (guard OFF) on a scratch worktree of /repo's HEAD (or of the given commit)
+# and compares with BASELINE.json's stable_pass list.  Usage: baseline.sh OUTDIR [COMMIT]
 out=${1:-/root/baseline_run}
+commit=${2:-HEAD}
+wt=/tmp/baseline_wt_$$
 mkdir -p $out
-cd /repo && env -u SCHEMATHESIS_VERIF /venv/bin/python -m pytest -ra -q -p no:cacheprovider --timeout=900 --continue-on-collection-errors --junitxml=$out/junit.xml > $out/log.txt 2>&1
-/venv/bin/python - "$out/junit.xml" <<'PY'
-import json, sys, xml.etree.ElementTree as ET
-base = json.load(open('/root/.vp/BASELINE.json'))
-stable = set(base['stable_pass'])
-passed = set()
-for tc in ET.parse(sys.argv[1]).getroot().iter('testcase'):
-    if not any(ch.tag in ('failure', 'error', 'skipped') for ch in tc):
-        passed.add(f"{tc.get('classname')}::{tc.get('name')}")
-missing = sorted(stable - passed)
-print(f"stable_pass={len(stable)} passed_now={len(passed)} stable_but_not_passing={len(missing)}")
-for m in missing[:40]:
-    print("  MISSING", m)
-PY
+git -C /repo worktree add --detach $wt $commit > $out/worktree.txt 2>&1 || exit 2
+cd $wt && env -u SCHEMATHESIS_VERIF PYTHONPATH=$wt/src /venv/bin/python -m pytest -ra -q -p no:cacheprovider --timeout=900 --continue-on-collection-errors --junitxml=$out/junit.xml > $out/log.txt 2>&1
+/venv/bin/python /verif/tools/baseline_compare.py "$out/junit.xml"
+cd / && git -C /repo worktree remove --force $wt
